@@ -29,8 +29,9 @@ var Current *Script
 var ErrStart = errors.New("vexec: helper cannot be started")
 
 type Process struct {
-	dead bool
-	cmd  *Cmd
+	dead   bool
+	cmd    *Cmd
+	pending int // the helper's writes into the stdout pipe that are under way
 }
 
 func (p *Process) Kill() error {
@@ -42,6 +43,19 @@ func (p *Process) Kill() error {
 		Current.Kills++
 	}
 	return nil
+}
+
+// Wait is os/exec's Cmd.Wait for a helper that only ends when it is killed:
+// it returns once the process is dead and the goroutine that copies its
+// output into the Stdout writer has finished (which it cannot while a write
+// into a pipe nobody reads is under way).
+func (c *Cmd) Wait() error {
+	p := c.Process
+	if p == nil {
+		return errors.New("vexec: Wait before Start")
+	}
+	vsync.Await("cmd.Wait", func() bool { return p.dead && p.pending == 0 })
+	return errors.New("signal: killed")
 }
 
 type Cmd struct {
@@ -107,7 +121,9 @@ func (c *Cmd) Start() error {
 					sc.Written.Send(-1 - i)
 					continue
 				}
+				p.pending++
 				_, err := out.Write([]byte(sc.InLines[i]))
+				p.pending--
 				if err != nil {
 					sc.Written.Send(-1 - i)
 				} else {
